@@ -1880,6 +1880,13 @@ func (self *LockDB) doExpried(lock *Lock, forcedExpried bool, removeWaited bool)
 	}
 
 	if !forcedExpried {
+		if lock.expriedTime > self.currentTime && lock.command.ExpriedFlag&protocol.EXPRIED_FLAG_MILLISECOND_TIME == 0 {
+			// a re-lock or update renewed the hold after the sweep had collected it and released the shard mutex
+			self.AddExpried(lock)
+			lockManager.glock.Unlock()
+			return
+		}
+
 		if self.status != STATE_LEADER && lock.isAof {
 			if lock.expriedTime <= 0 || self.currentTime-lock.expriedTime < EXPRIED_WAIT_LEADER_MAX_TIME {
 				lock.expriedTime = self.currentTime + 30
